@@ -84,7 +84,8 @@ def install (_old : Node) (s : Snapshot) : Node :=
   { kv := s.kv, terms := s.terms, la := s.labelIdx, laTerm := s.labelTerm }
 
 /-- Follower/learner after install: the leader sets `next_index := label + 1`, the node appends and applies
-entries `label+1 ..`. -/
+entries `label+1 ..`.  (A snapshot that is not ahead of the node is installed all the same: the attempt
+to ignore it, 8c628de, was reverted in /repo.) -/
 def installAndReplay (old : Node) (s : Snapshot) (log : List Entry) : Node :=
   applyFrom (install old s) s.labelIdx (log.drop s.labelIdx)
 
